@@ -16,7 +16,7 @@
    a Primitive / Terminal / ephemeral object    node (Model/C12_GPPrint.v); its attributes are the
                                                 projections below (OBJECT LAYER, trusted like the
                                                 node encoding of the correspondence harness)
-   Primitive.seq  ("name({0}, {1}, ..)")        seqstr = (name, arity) with seq_format = str.format
+   Primitive.seq  ("name({0}, {1}, ..)")        tpl (literal text and positional fields) with tpl_format = str.format
    Terminal.conv_fct / Terminal.value           conv / tval
    a primitive set                              pset (arguments, mapping; Terminal.value of the argument
                                                 terminal objects = ps_argvalue)
@@ -89,13 +89,32 @@ Definition eq_arity (k : nat) (a : option nat) : bool :=
 Definition is_Primitive (n : node) : bool := match n with NPrim _ _ _ => true | _ => false end.
 Definition attr_args (n : node) : option (list ty) := match n with NPrim _ a _ => Some a | _ => None end.
 
-Definition seqstr := (string * nat)%type.
-(* seq.format( *args ) for seq = "name({0}, ..., {arity-1})": IndexError with too few arguments, further ones ignored *)
-Definition seq_format (s : seqstr) (args : list string) : option string :=
-  if Nat.ltb (List.length args) (snd s) then None
-  else Some (fst s ++ "(" ++ String.concat ", " (firstn (snd s) args) ++ ")").
-Definition attr_seq (n : node) : option seqstr :=
-  match n with NPrim name a _ => Some (name, List.length a) | _ => None end.
+(* a format string with positional fields, as str.format sees it: literal text and fields {i}.
+   (Text substituted into a template is literal: names containing braces are outside the model.) *)
+Inductive piece := PLit (s : string) | PField (i : nat).
+Definition tpl := list piece.
+(* "{{{0}}}".format(i) : the text of positional field i *)
+Definition tpl_field (i : nat) : tpl := [PField i].
+Definition tpl_lit (s : string) : tpl := [PLit s].
+(* sep.join(list of format-string fragments) *)
+Fixpoint tpl_join (sep : string) (l : list tpl) : tpl :=
+  match l with
+  | [] => []
+  | x :: r => match r with [] => x | _ => (x ++ PLit sep :: tpl_join sep r)%list end
+  end.
+(* t.format( *args ): IndexError when a field has no argument, further arguments ignored *)
+Fixpoint tpl_format (t : tpl) (args : list string) : option string :=
+  match t with
+  | [] => Some ""
+  | PLit s :: r => match tpl_format r args with Some b => Some (s ++ b) | None => None end
+  | PField i :: r => match nth_error args i, tpl_format r args with
+                     | Some a, Some b => Some (a ++ b)
+                     | _, _ => None
+                     end
+  end.
+(* hand model of Primitive.seq: "name({0}, ..., {arity-1})" *)
+Definition prim_seq (name : string) (arity : nat) : tpl :=
+  (tpl_lit name ++ tpl_lit "(" ++ tpl_join ", " (map tpl_field (seq 0 arity)) ++ tpl_lit ")")%list.
 
 Inductive conv := ConvStr | ConvRepr.
 Inductive tval := VStr (s : string) | VCst (c : cst).
@@ -135,11 +154,14 @@ Definition re_split_seps (s : string) : list string := split s.
 Definition eval_token (s : string) : option cst := lit s.
 
 (* ---- compile: the code string handed to eval ---- *)
-Definition code_of (ps : pset) (t : list node) : string :=
+(* [sep] separates the parameters of the lambda header: "," in gp.py; ", " is the same Python *)
+Definition code_with (sep : string) (ps : pset) (t : list node) : string :=
   match ps_arguments ps with
   | [] => str_tree ps t
-  | params => "lambda " ++ String.concat "," params ++ ": " ++ str_tree ps t
+  | params => "lambda " ++ String.concat sep params ++ ": " ++ str_tree ps t
   end.
+Definition code_of := code_with ",".
+Definition header_sep (sep : string) : Prop := sep = "," \/ sep = ", ".
 
 (* ---- compileADF ---- *)
 Section Adf.
